@@ -8,6 +8,7 @@
 use std::fmt::Debug;
 use std::panic::AssertUnwindSafe;
 use std::sync::atomic::AtomicU8;
+#[cfg(not(ractor_verif))]
 use std::sync::atomic::AtomicUsize;
 use std::sync::Arc;
 use std::sync::Mutex;
@@ -110,7 +111,10 @@ impl ActorProperties {
                 stop: Mutex::new(Some(tx_stop)),
                 supervision: tx_supervision,
                 message: tx_message,
+                #[cfg(not(ractor_verif))]
                 message_admission: AtomicUsize::new(0),
+                #[cfg(ractor_verif)]
+                message_admission: crate::verif::TracedUsize::new(0),
                 tree: Default::default(),
                 type_id: std::any::TypeId::of::<TActor::Msg>(),
                 #[cfg(feature = "cluster")]
